@@ -56,7 +56,7 @@ def k_factory(ctx, kind, cfg, p):
     ctx.check("factory.from_raw", ok2 and bytes(rp) == raw, "repack_differs", feat, case)
     got = C.norm_params(kind, C.get_params(kind, pdu))
     ctx.check("factory.from_raw", got == C.norm_params(kind, p), "params_differ", f"{feat}/{C.diff_keys(got, C.norm_params(kind, p))}", case, observed=got)
-    ISO.remember(pdu, raw, kind)
+    ISO.remember(pdu, raw, kind, view=lambda pdu=pdu: (C.get_params(kind, pdu), C.hdr_fields(pdu.pdu_header), pdu.packet_len))
     ISO.recheck(ctx, "factory.decoded_objects_independent", case)
     # holder
     ok, holder = attempt(X.PduFactory.from_raw_to_holder, raw)
